@@ -376,3 +376,72 @@ def check_c17(root, prop, tier, seed, res):
 
 
 CHECKS["C17"] = check_c17
+
+
+# --------------------------------------------------------------------------------------------
+# Miri leg (thorough tier of C09 and C15): the same monitors, executed by the UB interpreter
+
+def miri_leg(root, prop, seed, res):
+    from vcheck import CARGO_TOML
+    import shutil
+    eng = GenericEngine(root, prop + "miri", "thorough", seed)
+    eng.prepare()
+    eng.env["CARGO_TARGET_DIR"] = os.path.join(root, "harness", "target", "miri")
+    eng.env["MIRIFLAGS"] = "-Zmiri-disable-isolation"
+    # families without built-in classes (the reference model's built-in tables would take hours to
+    # initialise under the interpreter)
+    penv = {"VP_THREADS": 1, "VP_EXH_MAX": 30, "VP_EXH_LEN": 3, "VP_RANDOM": 3, "VP_GUIDED": 3, "VP_CLONES": 3,
+            "VP_CTORS": 1, "VP_CROSS": 0, "VP_STUCK_CPU_S": 1000000}
+    base = (seed % 1000) * 100000
+    eng.add_batches("recover", "base", [base + i for i in range(3)], 3, penv)
+    eng.add_batches("actions", "base", [base + i for i in range(2)], 2, penv)
+    eng.generate()
+    t0 = time.time()
+    total = {"executions": 0, "clone_runs": 0, "lexers": 0}
+    for b in eng.batches:
+        env = dict(eng.env)
+        env.update({k: str(v) for k, v in penv.items()})
+        rc, out, err, to = run(["cargo", "+nightly", "miri", "run", "--offline", "--bin", b.name], cwd=eng.work, env=env, timeout=3600)
+        if to:
+            res.inconclusive.append("miri leg: wall-clock watchdog (3600 s) on %s" % b.name)
+            continue
+        if "Undefined Behavior" in err:
+            i = err.index("Undefined Behavior")
+            res.violations.append({"what": "Miri reports undefined behaviour while running generated lexers: " + err[max(0, i - 200):i + 1200],
+                                   "family": b.family, "index": b.indices[0], "batch": b.name})
+            continue
+        got = False
+        for line in out.splitlines():
+            if not line.startswith("{"):
+                continue
+            try:
+                m = json.loads(line)
+            except ValueError:
+                continue
+            if m.get("t") == "V" and m["v"].get("property") == prop:
+                v = m["v"]
+                v["what"] = "(under Miri) " + v.get("what", "")
+                res.violations.append(v)
+            elif m.get("t") == "S":
+                got = True
+                c = m["stats"]["counters"]
+                total["executions"] += c.get("executions", 0)
+                total["clone_runs"] += c.get("clone_runs", 0)
+                total["lexers"] += c.get("variants", 0)
+        if not got:
+            res.inconclusive.append("miri leg: batch %s produced no statistics (rc=%s): %s" % (b.name, rc, err[-600:]))
+    total["wall_s"] = round(time.time() - t0, 1)
+    res.extra["miri_leg"] = total
+    res.assumptions.append("Miri leg: generated lexers + lexgen_util interpreted by `cargo +nightly miri run` (the proc macro itself runs natively at compile time)")
+    shutil.rmtree(eng.work, ignore_errors=True)
+
+
+def generic_with_miri(root, prop, tier, seed, res):
+    eng = generic(root, prop, tier, seed, res)
+    if tier == "thorough" and os.environ.get("VP_NO_MIRI") != "1":
+        miri_leg(root, prop, seed, res)
+    return eng
+
+
+CHECKS["C09"] = generic_with_miri
+CHECKS["C15"] = generic_with_miri
